@@ -412,7 +412,10 @@ def _model_gap(e):
         return f"{type(e).__name__}: {str(e)[:160]} at {os.path.basename(last.filename)}:{last.lineno}"
     # e.g. NPShim.cumsum() got an unexpected keyword argument: raised at the call site in the repo, about a model function
     msg = str(e)
-    if isinstance(e, TypeError) and ("Shim." in msg or "FakeSeries" in msg or "FakeFrame" in msg or "LIndex" in msg) and "argument" in msg:
+    import re
+    if isinstance(e, TypeError) and re.search(r"\b(A|SymLen|GuardedSeq|\w*Shim|Fake\w+|LIndex|KernelObj)\.\w+\(\) (got an unexpected keyword|takes|missing)", msg):
+        return f"{type(e).__name__}: {msg[:160]}"
+    if isinstance(e, AttributeError) and re.search(r"'(A|SymLen|GuardedSeq|\w*Shim|Fake\w+|LIndex|_ILoc|_Loc|Stub)' object has no attribute", msg):
         return f"{type(e).__name__}: {msg[:160]}"
     return None
 
